@@ -1214,6 +1214,237 @@ def _desurrogate(v):
     return v
 
 
+# ---------------------------------------------------------------------------
+# histories: the same file / text / data more than once in one process
+# ---------------------------------------------------------------------------
+
+def _container_ids(v, acc=None):
+    acc = set() if acc is None else acc
+    if isinstance(v, dict):
+        acc.add(id(v))
+        for x in v.values():
+            _container_ids(x, acc)
+    elif isinstance(v, list):
+        acc.add(id(v))
+        for x in v:
+            _container_ids(x, acc)
+    elif dataclasses.is_dataclass(v) and not isinstance(v, type):
+        acc.add(id(v))
+        for f in dataclasses.fields(v):
+            if hasattr(v, f.name):
+                _container_ids(getattr(v, f.name), acc)
+    return acc
+
+
+def _poison(v, rng):
+    """change a result in place, as a caller is free to do with its own data"""
+    if isinstance(v, dict):
+        v["poison"] = [1]
+        for x in list(v.values()):
+            if isinstance(x, (dict, list)) and rng.random() < 0.7:
+                _poison(x, rng)
+    elif isinstance(v, list):
+        v.append("poison")
+        for x in v:
+            if isinstance(x, (dict, list)) and rng.random() < 0.7:
+                _poison(x, rng)
+    elif dataclasses.is_dataclass(v) and not isinstance(v, type):
+        for f in dataclasses.fields(v):
+            x = getattr(v, f.name, None)
+            if isinstance(x, (dict, list)) or dataclasses.is_dataclass(x):
+                _poison(x, rng)
+
+
+def gen_history(rng, length: int):
+    """ops on two files: ('write', f, doc, how) ('load', f, spelling) ('poison', i) ('create', f, spelling) ('swap',)
+    docs are CfgQmi-loadable; 'how' = dump | text | same-size-same-mtime"""
+    def doc():
+        wg = "w" + "".join(rng.choice("abcXYZ") for _ in range(4))                    # always the same rendered length
+        d = {"workgroup": wg, "contexts": {"c" + rng.choice("12"): {"host": rng.choice(["hA", "hB"]), "connect_to_peers": []}}}
+        if rng.random() < 0.3:
+            d["config_file"] = "/in/doc"
+        return d
+    ops = [("write", 0, doc(), "dump"), ("write", 1, doc(), "text")]
+    for _ in range(length):
+        r = rng.random()
+        f = rng.randint(0, 1)
+        if r < 0.4:
+            ops.append(("load", f, rng.choice(["abs", "rel", "dotrel"])))
+        elif r < 0.5:
+            ops.append(("poison",))
+        elif r < 0.65:
+            ops.append(("create", f, rng.choice(["abs", "rel"])))
+        elif r < 0.9:
+            ops.append(("write", f, doc(), rng.choice(["dump", "text", "stale", "stale"])))
+        else:
+            ops.append(("swap",))
+    ops += [("load", 0, "abs"), ("load", 1, "rel"), ("load", 0, "abs")]
+    return ops
+
+
+def run_history(ops, rng):
+    """returns a failure signature + detail, or None"""
+    import qmi.core.context_singleton as ctxs
+    from qmi.core.config import dump_config_file, load_config_file
+    from qmi.core.config_defs import CfgQmi
+    from qmi.core.config_struct import config_struct_from_dict
+    cwd = os.getcwd()
+    saved_env = ctxs.QMI_CONFIG
+    with tempfile.TemporaryDirectory() as td:
+        names = ["h0.conf", "h1.conf"]
+        content = [None, None]               # what is in each file now
+        results = []                          # every object handed out so far (kept alive)
+        seen_ids: set = set()
+        try:
+            os.chdir(td)
+            ctxs.QMI_CONFIG = None
+
+            def spell(f, how):
+                return {"abs": os.path.join(td, names[f]), "rel": names[f], "dotrel": os.path.join(".", names[f])}[how]
+
+            def write(f, d, how):
+                path = os.path.join(td, names[f])
+                if how == "dump":
+                    dump_config_file(copy.deepcopy(d), path)
+                else:
+                    st = os.stat(path) if (how == "stale" and os.path.exists(path)) else None
+                    text = json.dumps(d, indent=4)
+                    if how == "text":
+                        text = text.replace("\n", "  # c\n", 1)
+                    with open(path, "w") as fh:
+                        fh.write(text)
+                    if st is not None:
+                        os.utime(path, ns=(st.st_atime_ns, st.st_mtime_ns))      # the clock did not tick
+                content[f] = copy.deepcopy(d)
+
+            for k, op in enumerate(ops):
+                if op[0] == "write":
+                    write(op[1], op[2], op[3])
+                elif op[0] == "swap":
+                    a, b = content[0], content[1]
+                    write(0, b, "stale")
+                    write(1, a, "stale")
+                elif op[0] == "poison":
+                    if results:
+                        _poison(rng.choice(results), rng)
+                elif op[0] == "load":
+                    r = load_config_file(spell(op[1], op[2]))
+                    if M.enc_val(M.nv_from_real(r)) != M.enc_val(content[op[1]]):
+                        return "file:history-load-differs-from-content", \
+                            f"step {k} {op}: loaded {dict(r)!r}, the file holds {content[op[1]]!r}; history {ops[:k + 1]!r}"
+                    ids = _container_ids(r)
+                    if ids & seen_ids:
+                        return "file:history-results-share-objects", f"step {k} {op}: result shares mutable objects with an earlier result; history {ops[:k + 1]!r}"
+                    seen_ids |= ids
+                    results.append(r)
+                elif op[0] == "create":
+                    path = spell(op[1], op[2])
+                    c = ctxs.create_config_from_file(path)
+                    exp = dict(content[op[1]])
+                    exp["config_file"] = os.path.abspath(path)
+                    ref = config_struct_from_dict(copy.deepcopy(exp), CfgQmi)
+                    if M.enc_val(M.nv_from_real(c)) != M.enc_val(M.nv_from_real(ref)):
+                        return "file:history-create-differs-from-content", f"step {k} {op}: {c!r} vs {ref!r}; history {ops[:k + 1]!r}"
+                    ids = _container_ids(c)
+                    if ids & seen_ids:
+                        return "file:history-results-share-objects", f"step {k} {op}: structure shares mutable objects with an earlier result"
+                    seen_ids |= ids
+                    results.append(c)
+        finally:
+            os.chdir(cwd)
+            ctxs.QMI_CONFIG = saved_env
+    return None
+
+
+def aliasing_checks(world, rng):
+    """string route and struct route: two calls on the same input are equal, independent of each other and of the input"""
+    from qmi.core import config_struct as cs
+    from qmi.core.config import dump_config_string, load_config_string
+    from qmi.core.config_defs import CfgQmi
+    d = {"workgroup": "w", "contexts": {"c1": {"host": "h", "connect_to_peers": ["p"], "program_args": []}},
+         "logging": {"loglevels": {"a": "INFO"}}}
+    text = json.dumps(d) + " # c"
+    a, b = load_config_string(text), load_config_string(text)
+    if _container_ids(a) & _container_ids(b):
+        return "string:results-share-objects", "two load_config_string calls on one text share objects"
+    _poison(a, rng)
+    c = load_config_string(text)
+    if M.enc_val(M.nv_from_real(c)) != M.enc_val(d) or M.enc_val(M.nv_from_real(b)) != M.enc_val(d):
+        return "string:results-share-objects", "changing one result of load_config_string changed another"
+    data = copy.deepcopy(d)
+    s1, s2 = cs.config_struct_from_dict(data, CfgQmi), cs.config_struct_from_dict(data, CfgQmi)
+    if M.enc_val(data) != M.enc_val(d):
+        return "struct:input-mutated-or-stateful", "config_struct_from_dict changed its input"
+    if _container_ids(s1) & _container_ids(s2):
+        return "struct:results-share-objects", "two structures from one input share mutable objects"
+    ref = M.enc_val(M.nv_from_real(s2))
+    _poison(s1, rng)
+    if M.enc_val(M.nv_from_real(s2)) != ref or M.enc_val(M.nv_from_real(cs.config_struct_from_dict(copy.deepcopy(d), CfgQmi))) != ref:
+        return "struct:results-share-objects", "changing one structure changed another"
+    # the input is not aliased by the structure either (typed containers are rebuilt)
+    s3 = cs.config_struct_from_dict(data, CfgQmi)
+    data["contexts"]["c1"]["connect_to_peers"].append("later")
+    if M.enc_val(M.nv_from_real(s3)) != ref:
+        return "struct:result-aliases-input", "changing the input after the conversion changed the structure"
+    t1, t2 = cs.config_struct_to_dict(s2), cs.config_struct_to_dict(s2)
+    if _container_ids(t1) & (_container_ids(t2) | _container_ids(s2)):
+        return "struct:results-share-objects", "config_struct_to_dict output shares objects with the structure or an earlier output"
+    u1, u2 = dump_config_string(d), dump_config_string(d)
+    if u1 != u2:
+        return "string:dump-not-deterministic", "two dumps of one dict differ"
+    return None
+
+
+def history_stream(prop, ctx, res, world, n: int):
+    rng = ctx.rng
+
+    def fail(sig, detail, replay):
+        if not any(f.signature == sig for f in res.failures):
+            res.failures.append(Failure(sig, detail[:600], replay))
+
+    fixed = [
+        [("write", 0, {"workgroup": "wAAAA"}, "dump"), ("load", 0, "abs"), ("load", 0, "abs"), ("load", 0, "rel")],
+        [("write", 0, {"workgroup": "wAAAA"}, "dump"), ("load", 0, "abs"), ("poison",), ("load", 0, "abs")],
+        [("write", 0, {"workgroup": "wAAAA"}, "text"), ("load", 0, "abs"), ("create", 0, "abs"), ("load", 0, "abs"), ("create", 0, "rel"), ("load", 0, "rel")],
+        [("write", 0, {"workgroup": "wAAAA"}, "dump"), ("load", 0, "abs"), ("write", 0, {"workgroup": "wBBBB"}, "stale"), ("load", 0, "abs")],
+        [("write", 0, {"workgroup": "wAAAA"}, "dump"), ("write", 1, {"workgroup": "wBBBB"}, "dump"), ("load", 0, "abs"), ("load", 1, "abs"),
+         ("swap",), ("load", 0, "abs"), ("load", 1, "abs")],
+        [("write", 0, {"workgroup": "wAAAA"}, "dump"), ("create", 0, "abs"), ("create", 0, "abs"), ("poison",), ("create", 0, "abs")],
+    ]
+    for i in range(len(fixed) + n):
+        ops = fixed[i] if i < len(fixed) else gen_history(rng, rng.randint(4, 14))
+        sub = random_state = rng.random()
+        import random as _r
+        r2 = _r.Random(sub)
+        try:
+            out = run_history(ops, r2)
+        except RecursionError:
+            continue
+        except Exception as e:  # noqa: BLE001
+            out = (f"file:history-raises:{type(e).__name__}", f"{e}; history {ops!r}")
+        res.count("history_cases")
+        res.count("history_ops", len(ops))
+        res.note_case(("history", repr(ops)))
+        res.traces_validated += 1
+        if out:
+            fail(out[0], out[1], {"kind": "history", "ops": M.jsonable_ops(ops), "sub": sub})
+    for _ in range(3):       # 1st, 2nd and 3rd time in this process
+        out = aliasing_checks(world, rng)
+        res.note_case(("aliasing",))
+        if out:
+            fail(out[0], out[1], {"kind": "aliasing"})
+
+
+def replay_history(rp):
+    import random as _r
+    if rp["kind"] == "aliasing":
+        out = aliasing_checks(None, _r.Random(0))
+    else:
+        ops = [tuple(o) for o in rp["ops"]]
+        out = run_history(ops, _r.Random(rp.get("sub", 0)))
+    return Failure(out[0], out[1][:600], rp) if out else None
+
+
 def replay_fileload(rp):
     from qmi.core.config import load_config_file
     text = "".join(chr(c) for c in rp["text"])
